@@ -335,9 +335,11 @@ class FilterAnalyzer(desc.ResetMixin):
             out_data = np.empty(data.shape, dtype=data.dtype)
             for i in range(data.shape[0]):
                 out_data[i] = signal.filtfilt(b, a, data[i])
-                # Make sure to preserve the DC:
-                dc = np.mean(data[i])
-                out_data[i] = out_data[i] - np.mean(out_data[i])
+                # Make sure to preserve the DC of every channel (data[i] holds
+                # several channels when the data has more than 2 dimensions):
+                dc = np.mean(data[i], axis=-1, keepdims=True)
+                out_data[i] = out_data[i] - np.mean(out_data[i], axis=-1,
+                                                    keepdims=True)
                 out_data[i] = out_data[i] + dc
         else:
             out_data = signal.filtfilt(b, a, data)
